@@ -68,3 +68,10 @@ Example locked_example :
   let s := lkrun [true; true; true; false; false; true; true; true; true; true; true; true; false; false; false; false; false] in
   l_apc s = 2 /\ l_bpc s = 2 /\ pending_of s = [2].
 Proof. vm_compute. repeat split. Qed.
+
+(* regenerated from the source on every run: both handlers take the node's procMu as their first
+   statement and release it on return *)
+Require Gen.Skeletons.
+Lemma handlers_locked_ok :
+  Gen.Skeletons.process_message_locked && Gen.Skeletons.execute_operation_locked = true.
+Proof. reflexivity. Qed.
